@@ -7,6 +7,7 @@ import NodisVerif.Proofs.C01Store
 import NodisVerif.Proofs.C01Api
 import NodisVerif.Proofs.C01Clean
 import NodisVerif.Proofs.C01Trace
+import NodisVerif.Proofs.C01Float
 /-
   C01 — strings and keyspace follow sequential Redis semantics, byte-exact.
 
@@ -917,10 +918,97 @@ example : SafeRun [] [.set [97] [1, 0, 255], .append [97] [2], .get [97], .setra
   · show (0 : Int) ≤ 9; decide
   · show (0 : Int) ≤ 9; decide
 
+/-! ## 9. INCRBYFLOAT on decimal float text (work package C)
+
+  `Api.incrByFloat` = ds/str `IncrByFloat`: ParseFloat of the stored text ("0" when empty or missing), IEEE addition,
+  FormatFloat(sum,'f',-1,64) stored back. Since Model/FloatDec.lean the text may be any decimal float (fractions,
+  exponents, underscores, inf / nan); `.unsupported` remains only for hexadecimal floats and > 800 digits. -/
+
+/-- success: the reply is the exact IEEE sum, GET returns FormatFloat of it -/
+theorem incrByFloat_success (s : MState) (now : Int) (k : Bytes) (delta : F64) (h : StringOrMissing s now k) (old : F64)
+    (hp : Api.parseFloatText (floatText (strOf (strAt s now k))) = some (some old)) :
+    (Api.incrByFloat s now k delta).2 = .many [.f64 (F64.add old delta), .err false] ∧
+    (Api.get (Api.incrByFloat s now k delta).1 now k).2 = .bytes (some (FloatDec.formatShortest (F64.add old delta))) := by
+  have := incrByFloat_ok s now k delta h
+  rw [hp] at this
+  obtain ⟨h1, h2, _⟩ := this
+  refine ⟨h1, ?_⟩
+  rw [get_hot h2 rfl]; rfl
+
+/-- failure (text that is not a float, or a range error such as "1e400") on an existing string: error reply, logical
+    keyspace unchanged -/
+theorem incrByFloat_failure (s : MState) (now : Int) (k : Bytes) (delta : F64) (v0 : Val) (hs : IndexSorted s)
+    (hl : live s now k = some v0) (ht : isStrVal v0 = true)
+    (hf : Api.parseFloatText (floatText (strOf v0)) = some none) :
+    (Api.incrByFloat s now k delta).2 = .many [.f64 0, .err true] ∧
+    logical (Api.incrByFloat s now k delta).1 now = logical s now := by
+  have hso : ∀ v1, live s now k = some v1 → isStrVal v1 = true := by
+    intro v1 h1; rw [hl] at h1; cases h1; exact ht
+  have := incrByFloat_ok s now k delta hso
+  have e : strAt s now k = v0 := by unfold strAt; rw [hl]; rfl
+  rw [e, hf] at this
+  obtain ⟨h1, h2⟩ := this
+  refine ⟨h1, ?_⟩
+  rw [h2]
+  exact logical_ext hs (writeKey_sorted s now k _ hs) (writeKey_live s now k _ v0 hl).2.2
+
+/-- two increments in a row: the second one reads back exactly the double the first one stored (round trip of the
+    shortest text; partial in the same sense as `C04.formatShortest_roundtrip_partial`: the first sum is not NaN and
+    its text does not come from the 17-digit fallback), so the replies are `old + d1` and `(old + d1) + d2` -/
+theorem incrByFloat_twice_partial (s : MState) (now : Int) (k : Bytes) (d1 d2 : F64) (h : StringOrMissing s now k) (old : F64)
+    (hp : Api.parseFloatText (floatText (strOf (strAt s now k))) = some (some old))
+    (hnan : F64.isNaN (F64.add old d1) = false)
+    (hsr : F64.isInf (F64.add old d1) = true ∨ F64.isZero (F64.add old d1) = true ∨
+      (FloatDec.searchShortest (F64.add old d1)).isSome = true) :
+    (Api.incrByFloat s now k d1).2 = .many [.f64 (F64.add old d1), .err false] ∧
+    (Api.incrByFloat (Api.incrByFloat s now k d1).1 now k d2).2 = .many [.f64 (F64.add (F64.add old d1) d2), .err false] := by
+  have h0 := incrByFloat_ok s now k d1 h
+  rw [hp] at h0
+  obtain ⟨h1, h2, _⟩ := h0
+  refine ⟨h1, ?_⟩
+  have hl := live_of_hot h2
+  have hso : StringOrMissing (Api.incrByFloat s now k d1).1 now k := by
+    intro v1 hv1; rw [hl] at hv1; cases hv1; rfl
+  have hrt := Proofs.FloatDecTrip.formatShortest_roundtrip_partial (F64.add old d1) hnan hsr
+  have hne : (FloatDec.formatShortest (F64.add old d1)).isEmpty = false := by
+    cases ht : FloatDec.formatShortest (F64.add old d1) with
+    | nil =>
+      have hnil : FloatDec.parseFloat [] = some none := by decide +kernel
+      rw [ht, hnil] at hrt; cases hrt
+    | cons _ _ => rfl
+  have hat : strAt (Api.incrByFloat s now k d1).1 now k = .str (FloatDec.formatShortest (F64.add old d1)) := by
+    unfold strAt; rw [hl]; rfl
+  have hp2 : Api.parseFloatText (floatText (strOf (strAt (Api.incrByFloat s now k d1).1 now k))) =
+      some (some (F64.add old d1)) := by
+    rw [hat]
+    show Api.parseFloatText (floatText (some (FloatDec.formatShortest (F64.add old d1)))) = _
+    unfold floatText DsStr.bytes
+    simp only [Option.getD_some, hne, Bool.false_eq_true, if_false]
+    exact hrt
+  exact (incrByFloat_success _ now k d2 hso _ hp2).1
+
+/-- non-vacuity: "10.5" under key "f", +0.1 twice: replies 10.6 and 10.7 (as doubles), GET "10.6" after the first -/
+example :
+    let s0 := (Api.set {} 0 [102] (Bytes.ofString "10.5") false).1
+    (match (Api.incrByFloat s0 0 [102] 0x3FB999999999999A).2 with
+      | .many [.f64 x, .err false] => x == 0x4025333333333333 | _ => false) = true ∧
+    (match (Api.get (Api.incrByFloat s0 0 [102] 0x3FB999999999999A).1 0 [102]).2 with
+      | .bytes (some t) => t == Bytes.ofString "10.6" | _ => false) = true ∧
+    (match (Api.incrByFloat (Api.incrByFloat s0 0 [102] 0x3FB999999999999A).1 0 [102] 0x3FB999999999999A).2 with
+      | .many [.f64 x, .err false] => x == 0x4025666666666666 | _ => false) = true := by decide +kernel
+
+/-- … and a failing text: "1e400" (range error) is answered with an error and left alone -/
+example :
+    let s0 := (Api.set {} 0 [102] (Bytes.ofString "1e400") false).1
+    (match (Api.incrByFloat s0 0 [102] 1).2 with | .many [.f64 0, .err true] => true | _ => false) = true ∧
+    (match (Api.get (Api.incrByFloat s0 0 [102] 1).1 0 [102]).2 with
+      | .bytes (some t) => t == Bytes.ofString "1e400" | _ => false) = true := by decide +kernel
+
 /-
   UNPROVED / not covered:
-  * INCRBYFLOAT: Model/Api.lean models float arithmetic only on an integer-valued fragment
-    (`.unsupported` elsewhere); no theorem.
+  * INCRBYFLOAT: since work package C the model covers decimal float text of any form (section 9: success, failure,
+    two increments in a row); outside remain hexadecimal float text and more than 800 significant digits (`.unsupported`),
+    and the general round trip depends on the unproved 17-digit sufficiency (C04.formatShortest_roundtrip_partial).
   * RANDOMKEY, DBSIZE, FLUSHDB/FLUSHALL, UNLINK, SET with the GET option: not among the model
     functions listed for C01 (`randomKey` is relational, `Store.clear` is FLUSH); no theorem.
   * The network-protocol half of the property (argument parsing, reply encoding): out of the model
